@@ -95,6 +95,15 @@ class PlainObj(_Spy):
         return "SECRET-get"
 
 
+class CallableObj(PlainObj):
+    """A context value that happens to be callable (a function, a class, an object with __call__):
+    a template has no way to call it."""
+
+    def __call__(self, *a, **kw):
+        CALLS.append("__call__")
+        return "SECRET-called"
+
+
 def dropify(v):
     """dict -> MapDrop, list -> SeqDrop, recursively."""
     if isinstance(v, dict):
